@@ -33,7 +33,7 @@ RULE = ('omission cases = subsets of size 1-2 (quick) / 1-3 (thorough, up to 400
 ASSUMPTIONS = ['"same result as a freshly built System" is decided on the identical deterministic solver path (zero guess, same options): converged results must agree to 1e-6 relative (bit-identical in practice; convention errors are O(1e-2..1))',
                'wiring: contact points (|r - sigma| < 1e-6) are judged by C10, masked here']
 MINIMA = {'quick': {'omission.case': 60, 'counter.init_never_started': 60, 'wiring.pair': 100, 'digest.system_unchanged': 60, 'failpoint.injected': 40, 'sweep.step_compared': 100, 'isolation.edit': 60},
-          'thorough': {'omission.case': 3000, 'counter.init_never_started': 3000, 'wiring.pair': 3000, 'digest.system_unchanged': 2000, 'failpoint.injected': 600, 'sweep.step_compared': 4000, 'isolation.edit': 2000}}
+          'thorough': {'omission.case': 1000, 'counter.init_never_started': 1000, 'wiring.pair': 3000, 'digest.system_unchanged': 2000, 'failpoint.injected': 600, 'sweep.step_compared': 4000, 'isolation.edit': 2000}}
 SHARDS = {'quick': 8, 'thorough': 16}
 TIME_BUDGET = {'quick': 50, 'thorough': 280}
 
@@ -354,7 +354,7 @@ def run_snapshot(ctx, case):
     with np.errstate(all='ignore'):
         try:
             q = s.solve(method='krylov', options={'disp': False, 'maxiter': 15})
-        except (ValueError, np.linalg.LinAlgError, FloatingPointError):
+        except G.SOLVE_ERRORS:
             q = None
     ctx.hook('digest.system_unchanged')
     if digest(s) != before:
@@ -467,7 +467,7 @@ def run_sweep(ctx, case):
                 with np.errstate(all='ignore'):
                     p = system.solve(method='krylov', options=dict(opts))
                 out.append((prism_arrays(p), bool(p.minimize_result.success), None))
-            except (ValueError, np.linalg.LinAlgError, FloatingPointError, ZeroDivisionError) as e:
+            except G.SOLVE_ERRORS as e:
                 fs = core.innermost_repo_frame(e.__traceback__)
                 out.append((None, False, '%s@%s' % (type(e).__name__, fs.name if fs else '?')))
         (a, sa, ea), (b, sb, eb) = out
